@@ -336,7 +336,9 @@ func (e *Engine) LoadContractFile(file, pkgPath string) error {
 				for _, p := range strings.Split(rest, ",") {
 					cur.Props = append(cur.Props, strings.TrimSpace(p))
 				}
-			case "requires", "ensures", "modifies":
+			case "modifies":
+				cur.Modifies = append(cur.Modifies, &Clause{Text: rest})
+			case "requires", "ensures":
 				c, err := parseClause(rest)
 				if err != nil {
 					return fail(err)
